@@ -165,11 +165,12 @@ class Module:
         self.build_s = time.time() - t0
         return self
 
-    def link_goto(self, mains_text, defines=(), nthreads=1, heap=8192, stack=8192, scalar_mem=False):
+    def link_goto(self, mains_text, defines=(), nthreads=1, heap=8192, stack=8192, scalar_mem=False, preempt=False):
         """module.c + all query entry functions + runtime -> one goto binary (parsed once, queried many times)."""
         t0 = time.time()
         mains = os.path.join(self.outdir, 'mains.c')
-        open(mains, 'w').write('#include "vp_rt.h"\n' + mains_text)
+        pre = '#include "vp_rt.h"\nextern int vp_pre_enabled, vp_pre_k, vp_pre_count, vp_pre_ran;\nvoid vp_run_pending_unit(void);\n'
+        open(mains, 'w').write(pre + mains_text)
         arena = (self.info['globals_end'] + 63) // 64 * 64
         need = arena + nthreads * (heap + stack)
         words = 64
@@ -178,6 +179,8 @@ class Module:
         self.words = words
         self.defines = ['VP_WORDS=%d' % words, 'VP_ARENA_BASE=%dUL' % arena, 'VP_NTHREADS=%d' % nthreads,
                         'VP_HEAP_BYTES=%dUL' % heap, 'VP_STACK_BYTES=%dUL' % stack, 'VP_CBMC=1'] + list(defines)
+        if preempt:
+            self.defines.append('VP_PREEMPT=1')
         if scalar_mem:
             h = ['/* generated: scalar memory backend, %d words */' % words]
             h.append('uint64_t ' + ', '.join('VP_S%d' % i for i in range(words)) + ';')
@@ -185,7 +188,8 @@ class Module:
             h += ['  if (i == %d) return VP_S%d;' % (i, i) for i in range(words)]
             h.append('  return 0;\n}')
             h.append('static inline void vp_wrw(uint64_t i, uint64_t v) {')
-            h += ['  if (i == %d) { VP_S%d = v; return; }' % (i, i) for i in range(words)]
+            # no early return: merging 128 early-return states costs O(n^2) phi assignments per symbolic write
+            h += ['  if (i == %d) VP_S%d = v;' % (i, i) for i in range(words)]
             h.append('}')
             open(os.path.join(self.outdir, 'vp_scalar_mem.h'), 'w').write('\n'.join(h) + '\n')
             self.defines.append('VP_SCALAR_MEM=1')
@@ -361,3 +365,40 @@ def write_evidence(pid, ev):
     p = os.path.join(ROOT, 'evidence', pid + '.json')
     json.dump(ev, open(p, 'w'), indent=1, sort_keys=True)
     return p
+
+
+# ----------------------------------------------------------------------------------------------- entry generators
+def decls(fns):
+    return ''.join('void %s(void);\n' % f for f in sorted(set(fns)))
+
+
+def threaded_entry(entry, prologue, threads, epilogue):
+    """CBMC threads (Tier K): every interleaving of the thread bodies at the granularity of shared accesses."""
+    s = ''.join('uint8_t %s_done%d;\n' % (entry, i + 1) for i in range(len(threads)))
+    for i, t in enumerate(threads):
+        s += 'void %s_t%d(void) { vp_set_thread(%d); %s(); %s_done%d = 1; }\n' % (entry, i + 1, i + 1, t, entry, i + 1)
+    s += 'void %s(void) {\n  vp_init();\n  %s();\n' % (entry, prologue)
+    for i, t in enumerate(threads):
+        s += '  __CPROVER_ASYNC_%d: %s_t%d();\n' % (i + 1, entry, i + 1)
+    s += '  __CPROVER_assume(%s);\n  %s();\n}\n' % (' && '.join('%s_done%d' % (entry, i + 1) for i in range(len(threads))), epilogue)
+    return s
+
+
+def unit_selector(units):
+    """vp_unit_b(): the pending unit of a sequentialised schedule, selected by a per-query constant."""
+    s = 'int vp_unit_sel;\nvoid vp_unit_b(void) {\n'
+    for i, u in enumerate(units):
+        s += '  if (vp_unit_sel == %d) { %s(); return; }\n' % (i + 1, u)
+    s += '}\n'
+    return s
+
+
+def cube_entry(entry, prologue, outer, inner_index, k, epilogue, kmax, prologue_args=''):
+    """Tier A: `inner` runs to completion at the k-th atomic operation of `outer` (k=-1: after it).  With k=-1 the query also
+    proves that `outer` alone never performs more than kmax atomic operations, i.e. that the cubes 0..kmax-1 cover it."""
+    s = 'void %s(void) {\n  vp_init();\n  %s(%s);\n  vp_unit_sel = %d; vp_pre_k = %d; vp_pre_enabled = 1;\n  %s();\n' % (
+        entry, prologue, prologue_args, inner_index, k, outer)
+    if k < 0:
+        s += '  VP_ASSERT(vp_pre_count <= %d, "VP-BOUND: unit performs more atomic operations than there are preemption cubes");\n' % kmax
+    s += '  vp_run_pending_unit();\n  vp_pre_enabled = 0;\n  %s();\n}\n' % epilogue
+    return s
